@@ -160,7 +160,7 @@ def cells_pool():
         [("txt", "caf"), ("ext", "É")], [("txt", "H"), ("ext", "Ô"), ("txt", "TEL")], [("txt", "Stra"), ("ext", "ß"), ("txt", "e")],
         [("txt", "plain"), ("mid", True), ("txt", "slanted")], [("txt", "a"), ("mid", True), ("txt", "b"), ("mid", False), ("txt", "c")],
         [("txt", "ABX"), ("bs",), ("txt", "C")], [("spc", "♪"), ("txt", " la la "), ("spc", "♪")], [("txt", "odd")],
-        [("ext", "¡"), ("txt", "Hola!")],
+        [("ext", "¡"), ("txt", "Hola!")], [("txt", "no I I said")], [("txt", "go a a a a a away")],
         [("txt", "warning"), ("bg", 2), ("txt", " sign")], [("txt", "mark "), ("bg", 4), ("txt", "up")],
     ]
 
@@ -314,7 +314,8 @@ def run(ctx, report, rules):
 
 # ================================================================== roll-up / paint-on (C16), row lengths (C15), times (C06)
 RU = {2: C.CONTROL["RU2"], 3: C.CONTROL["RU3"], 4: C.CONTROL["RU4"]}
-ROW_TEXTS = ["FIRST ROW", "second one here", "3RD", "and the fourth row", "five", "six six six", "seventh", "the last one"]
+# ("no I I said", "10 1 1 go": a one-letter word said twice falls on two identical character pairs - text, not a doubled code)
+ROW_TEXTS = ["FIRST ROW", "second one here", "3RD", "no I I said", "five", "six six six", "and the seventh row", "10 1 1 go a a a a away"]
 
 
 class Engine:
@@ -358,7 +359,7 @@ Engine.reader_after = _reader_after
 
 
 def tc(second, frame, drop):
-    return f"00:00:{second:02d}{';' if drop else ':'}{frame:02d}"
+    return f"{second // 3600:02d}:{second // 60 % 60:02d}:{second % 60:02d}{';' if drop else ':'}{frame:02d}"
 
 
 def instant(second, frame, words_before, drop):
@@ -424,6 +425,23 @@ def explore_rolling(ctx, thorough):
         for nrows in (1, 2, 4):
             cases.append(("paint-on", painton_stream(texts[:nrows], d, drop), texts[:nrows], d))
         cases.append(("paint-on from 00:00:00", painton_stream(texts[:2], d, drop, start_second=0), texts[:2], d))
+    # a programme that runs across a full-hour mark (rows two seconds apart from 00:59:57 on)
+    for d, drop in itertools.product((1, 2), (False, True)):
+        cases.append(("roll-up 3 across the hour mark", rollup_stream(3, texts[:4], d, drop, d == 1, start_second=3597), texts[:4], d))
+        cases.append(("paint-on across the hour mark", painton_stream(texts[:3], d, drop, start_second=3597), texts[:3], d))
+    # the LAST row of a roll-up programme is addressed a second time further along the row (two pieces shown together):
+    # rolled out by an erase line, by a carriage return, or by the end of the file
+    for d, finish in itertools.product((1, 2), ("EDM", "CR", "EOF")):
+        lines_ = ["Scenarist_SCC V1.0", ""]
+        for k, text in enumerate((["first row"], ["second"], ["left", "right"])):
+            words = [RU[2]] * d + [C.CONTROL["CR"]] * d + [pac(15, 0)] * d + text_words(text[0])
+            if len(text) > 1:
+                words += [pac(15, 16)] * d + text_words(text[1])
+            lines_ += [f"{tc(1 + 2 * k, 0, False)}\t" + " ".join(words), ""]
+        if finish != "EOF":
+            lines_ += [f"{tc(7, 0, False)}\t" + " ".join([C.CONTROL[finish]] * d), ""]
+        cases.append((f"roll-up 2, the last row addressed again further along the row, then {finish}", "\n".join(lines_),
+                      [["first row"], ["second"], ["left"], ["right"]], d))
     # a row addressed twice before its text arrives: an address on another row that stays unused, then the row below it
     for d in (1, 2):
         for mode, head in (("roll-up 3", [RU[3]] * d + [C.CONTROL["CR"]] * d), ("paint-on", [C.CONTROL["RDC"]] * d)):
@@ -465,8 +483,18 @@ def explore_rolling(ctx, thorough):
         if any(not (isinstance(a, (int, float)) and isinstance(b, (int, float)) and a < b) for a, b in starts) \
                 or any(starts[i][0] > starts[i + 1][0] for i in range(len(starts) - 1)):
             bad["order"].append(dict(case, times=starts))
-        elif any(abs(starts[i][1] - starts[i + 1][0]) > 1e-3 for i in range(len(starts) - 1)):
-            bad["chain"].append(dict(case, times=starts))
+        else:
+            # (pieces of one row addressed apart are captions shown together: same start, same end; "the next one" is the
+            # next caption that begins later)
+            groups = []
+            for a, b in starts:
+                if groups and abs(groups[-1][0] - a) <= 1e-3:
+                    groups[-1][1].append(b)
+                else:
+                    groups.append((a, [b]))
+            if any(max(bs) - min(bs) > 1e-3 for _, bs in groups) or \
+                    any(abs(groups[i][1][0] - groups[i + 1][0]) > 1e-3 for i in range(len(groups) - 1)):
+                bad["chain"].append(dict(case, times=starts))
     # simulate_roll_up: (a) every caption the reader returns has balanced italic nodes, also when rows with italics are
     # stacked; (b) the option belongs to the call: a reader used once with it reads the next document like a fresh one
     ital_rows = [["plain"], [("mid", True), "slanted"], ["two ", ("mid", True), "it", ("mid", False), " end"],
@@ -540,7 +568,7 @@ def explore_lengths(ctx, thorough):
             cases.append(("roll-up", rollup_stream(2, [[r] for r in rows], 1, False, True), rows))
             cases.append(("paint-on", painton_stream([[r] for r in rows], 1, False), rows))
     # two rows of one load on NON-adjacent screen rows: separate captions with the same start; sent top-down and bottom-up
-    for a, b in ((10, 32), (32, 10), (20, 20), (32, 33)):
+    for a, b in ((10, 32), (32, 10), (20, 20), (32, 33), (33, 10), (33, 32), (34, 33)):
         rows = [txt(a, 1), txt(b, 2)]
         for order in ((2, 15), (15, 2)):
             prog = [[{"row": order[0], "indent": 0, "tab": 0, "cells": [("txt", rows[0])]},
@@ -658,6 +686,22 @@ def explore_times(ctx, thorough):
                  f"{tc(10, 0, drop)}\t" + " ".join(lb), ""]
         want = [[instant(1, 0, len(la), drop), instant(1, 0, len(la), drop) + 4000000]]
         scen.append(("code words still arriving long after the last caption was shown", lines, want))
+        # a four-row caption on one line: its End Of Caption comes a hundred frames or more after the line's time code
+        rows4 = []
+        for r_ in (12, 13, 14, 15):
+            rows4 += [pac(r_, 0)] * d + text_words("THIS ROW HAS THIRTY-TWO CELLS OK")
+        words = [C.CONTROL["RCL"]] * d + [C.CONTROL["ENM"]] * d + rows4 + ["8080"] * 30
+        lines = ["Scenarist_SCC V1.0", "", f"{tc(1, 25, drop)}\t" + " ".join(words + [C.CONTROL["EOC"]] * d), "",
+                 f"{tc(9, 0, drop)}\t" + " ".join([C.CONTROL["EDM"]] * d), ""]
+        scen.append((f"the End Of Caption {len(words) + 25} frames after the line's time code", lines,
+                     [[instant(1, 25, len(words), drop), instant(9, 0, 0, drop)]]))
+        # a programme that runs across a full-hour mark
+        lines = ["Scenarist_SCC V1.0", "", f"{tc(3598, 0, drop)}\t" + " ".join(la + [C.CONTROL["EOC"]] * d), "",
+                 f"{tc(3601, 0, drop)}\t" + " ".join(lb + [C.CONTROL["EOC"]] * d), "",
+                 f"{tc(3603, 15, drop)}\t" + " ".join([C.CONTROL["EDM"]] * d), ""]
+        scen.append(("captions on both sides of the hour mark", lines,
+                     [[instant(3598, 0, len(la), drop), instant(3601, 0, len(lb), drop)],
+                      [instant(3601, 0, len(lb), drop), instant(3603, 15, 0, drop)]]))
         for label, lines, want in scen:
             n += 1
             got = E_.read("\n".join(lines))
